@@ -1,1 +1,1133 @@
-fn main() {}
+//! C09 — storage-backed method generation / purge is all-or-nothing under storage faults.
+//!
+//! `FaultyJwk` / `FaultyKeyId` implement the public `JwkStorage` / `KeyIdStorage` traits around the real
+//! `JwkMemStore` / `KeyIdMemstore`. While an operation under test runs ("armed"), EVERY call occurrence of
+//! every trait method is a binary choice point of the E1 explorer (0 = delegate to the real store, 1 = return
+//! the trait's error without touching the store). The explorer runs with bound `None`: every subset of failing
+//! call occurrences is executed, including calls that only exist on undo paths (discovered dynamically).
+//!
+//! (A) single operations: generate_method (scope x fragment x key type) and purge_method (target shape) on
+//!     CoreDocument and IotaDocument, each on a document that also holds a storage-backed bystander method with
+//!     a relationship reference, an unbacked method, a reference to it and a service.
+//! (B) histories: every sequence (length <= 3 quick / <= 4 thorough) over an 8-letter alphabet of
+//!     generate / attach-reference / purge / create_jws operations, every subset of failing calls over the WHOLE
+//!     history, oracle after every operation.
+//!
+//! (C) cycles: every sequence (length <= 4 quick / <= 6 thorough) over generate / attach / purge / sign of ONE
+//!     general method, same fault enumeration (repeated generate-purge cycles with faults anywhere).
+//!
+//! Oracle (from the property statement): observable state S = (methods with their scope, relationship
+//! references, rest of the document, live key ids, digest -> key id map).
+//!   Ok                         => complete (method resolves in the requested scope, one new key, its key id recorded
+//!                                 under the method's digest, create_jws with it verifies; after purge all three and
+//!                                 all references gone) and nothing else changed;
+//!   Err(UndoOperationFailed)   => exempt (counted), the execution stops there;
+//!   any other Err              => S_after == S_before (order-insensitive).
+
+use async_trait::async_trait;
+use identity_core::convert::{FromJson, ToJson};
+use identity_credential::credential::Jws;
+use identity_did::DIDUrl;
+use identity_document::document::CoreDocument;
+use identity_document::verifiable::JwsVerificationOptions;
+use identity_eddsa_verifier::EdDSAJwsVerifier;
+use identity_iota_core::IotaDocument;
+use identity_storage::{
+  JwkDocumentExt, JwkGenOutput, JwkMemStore, JwkStorage, JwkStorageDocumentError, JwsSignatureOptions, KeyId, KeyIdMemstore,
+  KeyIdStorage, KeyIdStorageError, KeyIdStorageErrorKind, KeyIdStorageResult, KeyStorageError, KeyStorageErrorKind,
+  KeyStorageResult, KeyType, MethodDigest, Storage,
+};
+use identity_verification::jose::jwk::Jwk;
+use identity_verification::jose::jws::JwsAlgorithm;
+use identity_verification::{MethodRelationship, MethodScope, VerificationMethod};
+use serde::{Deserialize, Serialize};
+use std::cell::{Cell, RefCell};
+use std::collections::{BTreeMap, BTreeSet};
+use std::rc::Rc;
+use std::sync::Mutex;
+use vx::choice::{self, Chooser};
+use vx::gate::block_on;
+use vx::rayon::prelude::*;
+use vx::{guard, json, Ctx, Level, Value};
+
+// ------------------------------------------------------------------------------------------------ cases
+
+#[derive(Serialize, Deserialize, Debug, Clone, Copy, PartialEq, Eq, Hash)]
+enum DocKind {
+  Core,
+  Iota,
+}
+#[derive(Serialize, Deserialize, Debug, Clone, Copy, PartialEq, Eq, Hash)]
+enum Scp {
+  Vm,
+  Auth,
+  Assert,
+}
+/// Fragment passed to generate_method.
+#[derive(Serialize, Deserialize, Debug, Clone, Copy, PartialEq, Eq, Hash)]
+enum Fr {
+  /// `None`: the JWK's kid (thumbprint) becomes the fragment
+  Auto,
+  /// "#k<n>"
+  Named(u8),
+  /// "#root": id of the unbacked general method of every base document
+  Root,
+  /// "#svc": id of the service of every base document
+  Svc,
+  /// "#dangling": in base 2 a relationship reference (and nothing else) carries this id
+  Dangling,
+  /// a fragment that cannot be part of a DID URL
+  Invalid,
+}
+#[derive(Serialize, Deserialize, Debug, Clone, Copy, PartialEq, Eq, Hash)]
+enum Kt {
+  Ed25519EdDsa,
+  Ed25519Es256,
+  Bogus,
+}
+/// Target of purge / attach / sign.
+#[derive(Serialize, Deserialize, Debug, Clone, Copy, PartialEq, Eq, Hash)]
+enum Tg {
+  Named(u8),
+  /// the fragment returned by the latest successful generate with `Fr::Auto` ("#no-auto-yet" if none)
+  Auto,
+  Root,
+  /// "#undec": in base 1 a general method whose publicKeyMultibase cannot be decoded
+  Undec,
+  Absent,
+}
+#[derive(Serialize, Deserialize, Debug, Clone, Copy, PartialEq, Eq, Hash)]
+enum Op {
+  Gen { scope: Scp, frag: Fr, kt: Kt },
+  Purge { target: Tg },
+  /// attach_method_relationship (plain document operation, no storage involved, never judged)
+  Attach { target: Tg, rel: u8 },
+  /// create_jws + verify_jws
+  Sign { target: Tg },
+}
+#[derive(Serialize, Deserialize, Debug, Clone, PartialEq, Eq, Hash)]
+struct Scenario {
+  doc: DocKind,
+  /// 0: root method + reference + service; 1: + undecodable method with a reference; 2: + dangling self-reference
+  base: u8,
+  /// executed with faults off
+  setup: Vec<Op>,
+  /// executed with every call occurrence a fault choice point
+  ops: Vec<Op>,
+}
+#[derive(Serialize, Deserialize, Debug, Clone)]
+struct Case {
+  scn: Scenario,
+  /// choice sequence: one entry per storage call occurrence met while armed (1 = that call fails)
+  faults: Vec<u32>,
+}
+
+const RELS: [MethodRelationship; 5] = [
+  MethodRelationship::Authentication,
+  MethodRelationship::AssertionMethod,
+  MethodRelationship::KeyAgreement,
+  MethodRelationship::CapabilityDelegation,
+  MethodRelationship::CapabilityInvocation,
+];
+/// JSON member name -> scope name used in observations.
+const SCOPES: [&str; 6] =
+  ["verificationMethod", "authentication", "assertionMethod", "keyAgreement", "capabilityDelegation", "capabilityInvocation"];
+
+fn scope_of(s: Scp) -> (MethodScope, &'static str) {
+  match s {
+    Scp::Vm => (MethodScope::VerificationMethod, "verificationMethod"),
+    Scp::Auth => (MethodScope::VerificationRelationship(MethodRelationship::Authentication), "authentication"),
+    Scp::Assert => (MethodScope::VerificationRelationship(MethodRelationship::AssertionMethod), "assertionMethod"),
+  }
+}
+
+// ------------------------------------------------------------------------------------------------ fault injection
+
+struct Ctl<'c, 'p> {
+  ch: RefCell<&'c mut Chooser<'p>>,
+  armed: Cell<bool>,
+  /// calls made during the current armed operation: (label, failed)
+  calls: RefCell<Vec<(&'static str, bool)>>,
+  /// every key id the real key store ever handed out
+  issued: RefCell<Vec<KeyId>>,
+  /// every digest that was ever passed to the key-id store
+  digests: RefCell<Vec<MethodDigest>>,
+}
+impl<'c, 'p> Ctl<'c, 'p> {
+  /// One call occurrence = one binary choice point (only while armed).
+  fn fail(&self, label: &'static str) -> bool {
+    if !self.armed.get() {
+      return false;
+    }
+    let f = self.ch.borrow_mut().flag(label);
+    self.calls.borrow_mut().push((label, f));
+    f
+  }
+  fn saw(&self, d: &MethodDigest) {
+    let mut v = self.digests.borrow_mut();
+    if !v.contains(d) {
+      v.push(d.clone());
+    }
+  }
+}
+
+struct FaultyJwk<'c, 'p> {
+  inner: JwkMemStore,
+  ctl: Rc<Ctl<'c, 'p>>,
+}
+fn kerr() -> KeyStorageError {
+  KeyStorageError::new(KeyStorageErrorKind::Unavailable).with_custom_message("injected fault")
+}
+fn ierr() -> KeyIdStorageError {
+  KeyIdStorageError::new(KeyIdStorageErrorKind::Unavailable).with_custom_message("injected fault")
+}
+
+#[async_trait(?Send)]
+impl<'c, 'p> JwkStorage for FaultyJwk<'c, 'p> {
+  async fn generate(&self, key_type: KeyType, alg: JwsAlgorithm) -> KeyStorageResult<JwkGenOutput> {
+    if self.ctl.fail("K.generate") {
+      return Err(kerr());
+    }
+    let out = self.inner.generate(key_type, alg).await;
+    if let Ok(o) = &out {
+      self.ctl.issued.borrow_mut().push(o.key_id.clone());
+    }
+    out
+  }
+  async fn insert(&self, jwk: Jwk) -> KeyStorageResult<KeyId> {
+    if self.ctl.fail("K.insert") {
+      return Err(kerr());
+    }
+    let out = self.inner.insert(jwk).await;
+    if let Ok(k) = &out {
+      self.ctl.issued.borrow_mut().push(k.clone());
+    }
+    out
+  }
+  async fn sign(&self, key_id: &KeyId, data: &[u8], public_key: &Jwk) -> KeyStorageResult<Vec<u8>> {
+    if self.ctl.fail("K.sign") {
+      return Err(kerr());
+    }
+    self.inner.sign(key_id, data, public_key).await
+  }
+  async fn delete(&self, key_id: &KeyId) -> KeyStorageResult<()> {
+    if self.ctl.fail("K.delete") {
+      return Err(kerr());
+    }
+    self.inner.delete(key_id).await
+  }
+  async fn exists(&self, key_id: &KeyId) -> KeyStorageResult<bool> {
+    if self.ctl.fail("K.exists") {
+      return Err(kerr());
+    }
+    self.inner.exists(key_id).await
+  }
+}
+
+struct FaultyKeyId<'c, 'p> {
+  inner: KeyIdMemstore,
+  ctl: Rc<Ctl<'c, 'p>>,
+}
+#[async_trait(?Send)]
+impl<'c, 'p> KeyIdStorage for FaultyKeyId<'c, 'p> {
+  async fn insert_key_id(&self, method_digest: MethodDigest, key_id: KeyId) -> KeyIdStorageResult<()> {
+    self.ctl.saw(&method_digest);
+    if self.ctl.fail("I.insert_key_id") {
+      return Err(ierr());
+    }
+    self.inner.insert_key_id(method_digest, key_id).await
+  }
+  async fn get_key_id(&self, method_digest: &MethodDigest) -> KeyIdStorageResult<KeyId> {
+    self.ctl.saw(method_digest);
+    if self.ctl.fail("I.get_key_id") {
+      return Err(ierr());
+    }
+    self.inner.get_key_id(method_digest).await
+  }
+  async fn delete_key_id(&self, method_digest: &MethodDigest) -> KeyIdStorageResult<()> {
+    self.ctl.saw(method_digest);
+    if self.ctl.fail("I.delete_key_id") {
+      return Err(ierr());
+    }
+    self.inner.delete_key_id(method_digest).await
+  }
+}
+
+type Store<'c, 'p> = Storage<FaultyJwk<'c, 'p>, FaultyKeyId<'c, 'p>>;
+
+// ------------------------------------------------------------------------------------------------ documents
+
+const CORE_DID: &str = "did:bar:Hyx62wPQGyvXCoihZq1BrbUjBRh2LuNxWiiqMkfAuSZr";
+const IOTA_DID: &str = "did:iota:tst:0xdfda8bcfb959c3e6ef261343c3e1a8310e9c8294eeafee326a4e96d65dbeaca0";
+
+fn base_core_json(did: &str, base: u8) -> Value {
+  let mut vm = vec![json!({"id": format!("{did}#root"), "controller": did, "type": "Ed25519VerificationKey2018",
+    "publicKeyMultibase": "zHyx62wPQGyvXCoihZq1BrbUjBRh2LuNxWiiqMkfAuSZr"})];
+  let mut auth = vec![json!(format!("{did}#root"))];
+  let mut assertion: Vec<Value> = vec![];
+  if base == 1 {
+    // '0', 'O', 'I', 'l' are not base58btc digits: MethodData::try_decode fails, hence MethodDigest::new fails
+    vm.push(json!({"id": format!("{did}#undec"), "controller": did, "type": "Ed25519VerificationKey2018", "publicKeyMultibase": "z0OIl"}));
+    assertion.push(json!(format!("{did}#undec")));
+  }
+  if base == 2 {
+    auth.push(json!(format!("{did}#dangling")));
+  }
+  let mut doc = json!({
+    "id": did,
+    "verificationMethod": vm,
+    "authentication": auth,
+    "service": [{"id": format!("{did}#svc"), "type": "LinkedDomains", "serviceEndpoint": "https://example.com/"}],
+  });
+  if !assertion.is_empty() {
+    doc["assertionMethod"] = Value::Array(assertion);
+  }
+  doc
+}
+
+trait TestDoc: JwkDocumentExt + Sized {
+  fn build(base: u8) -> Self;
+  fn did_str() -> &'static str;
+  fn json(&self) -> Value;
+  fn attach(&mut self, id: &DIDUrl, rel: MethodRelationship) -> Result<bool, String>;
+  fn verify(&self, jws: &Jws) -> Result<(), String>;
+  fn resolves(&self, id: &DIDUrl, scope: Option<MethodScope>) -> bool;
+}
+impl TestDoc for CoreDocument {
+  fn build(base: u8) -> Self {
+    CoreDocument::from_json_value(base_core_json(CORE_DID, base)).expect("base core document")
+  }
+  fn did_str() -> &'static str {
+    CORE_DID
+  }
+  fn json(&self) -> Value {
+    self.to_json_value().expect("document serialises")
+  }
+  fn attach(&mut self, id: &DIDUrl, rel: MethodRelationship) -> Result<bool, String> {
+    self.attach_method_relationship(id, rel).map_err(|e| e.to_string())
+  }
+  fn verify(&self, jws: &Jws) -> Result<(), String> {
+    self.verify_jws(jws.as_str(), None, &EdDSAJwsVerifier::default(), &JwsVerificationOptions::default()).map(|_| ()).map_err(|e| e.to_string())
+  }
+  fn resolves(&self, id: &DIDUrl, scope: Option<MethodScope>) -> bool {
+    self.resolve_method(id, scope).is_some()
+  }
+}
+impl TestDoc for IotaDocument {
+  fn build(base: u8) -> Self {
+    let v = json!({"doc": base_core_json(IOTA_DID, base), "meta": {"created": "2023-05-12T15:09:50Z", "updated": "2023-05-12T15:09:50Z"}});
+    IotaDocument::from_json_value(v).expect("base iota document")
+  }
+  fn did_str() -> &'static str {
+    IOTA_DID
+  }
+  fn json(&self) -> Value {
+    self.to_json_value().expect("document serialises")
+  }
+  fn attach(&mut self, id: &DIDUrl, rel: MethodRelationship) -> Result<bool, String> {
+    self.attach_method_relationship(id, rel).map_err(|e| e.to_string())
+  }
+  fn verify(&self, jws: &Jws) -> Result<(), String> {
+    self.verify_jws(jws, None, &EdDSAJwsVerifier::default(), &JwsVerificationOptions::default()).map(|_| ()).map_err(|e| e.to_string())
+  }
+  fn resolves(&self, id: &DIDUrl, scope: Option<MethodScope>) -> bool {
+    self.resolve_method(id, scope).is_some()
+  }
+}
+
+// ------------------------------------------------------------------------------------------------ observation
+
+#[derive(Clone, Debug, PartialEq)]
+struct Obs {
+  /// method id -> (scope it is embedded in, its JSON)
+  methods: BTreeMap<String, (String, String)>,
+  /// a method id that occurs more than once among the embedded methods
+  duplicate_ids: BTreeSet<String>,
+  /// (relationship, referenced id)
+  refs: BTreeSet<(String, String)>,
+  /// the document (and, for IotaDocument, its metadata) without the six method arrays
+  rest: Value,
+  services: BTreeSet<String>,
+  keys: BTreeSet<String>,
+  key_count: usize,
+  /// hex(digest) -> key id
+  keyids: BTreeMap<String, String>,
+  keyid_count: usize,
+}
+
+fn hex(b: &[u8]) -> String {
+  b.iter().map(|x| format!("{x:02x}")).collect()
+}
+fn digest_of_json(method_json: &str) -> Option<MethodDigest> {
+  let m = VerificationMethod::from_json(method_json).ok()?;
+  MethodDigest::new(&m).ok()
+}
+
+fn observe<D: TestDoc>(doc: &D, st: &Store, ctl: &Ctl) -> Obs {
+  let mut rest = doc.json();
+  let core: &mut Value = if rest.get("doc").is_some() { &mut rest["doc"] } else { &mut rest };
+  let mut methods = BTreeMap::new();
+  let mut duplicate_ids = BTreeSet::new();
+  let mut refs = BTreeSet::new();
+  for scope in SCOPES {
+    let arr = core.as_object_mut().and_then(|o| o.remove(scope));
+    for e in arr.and_then(|a| a.as_array().cloned()).unwrap_or_default() {
+      match &e {
+        Value::String(id) => {
+          refs.insert((scope.to_string(), id.clone()));
+        }
+        other => {
+          let id = other.get("id").and_then(|i| i.as_str()).unwrap_or("?").to_string();
+          if methods.insert(id.clone(), (scope.to_string(), other.to_string())).is_some() {
+            duplicate_ids.insert(id);
+          }
+        }
+      }
+    }
+  }
+  let services = core
+    .get("service")
+    .and_then(|s| s.as_array())
+    .map(|a| a.iter().filter_map(|s| s.get("id").and_then(|i| i.as_str()).map(String::from)).collect())
+    .unwrap_or_default();
+  let mut keys = BTreeSet::new();
+  for k in ctl.issued.borrow().iter() {
+    if matches!(block_on(st.key_storage().inner.exists(k)), Ok(true)) {
+      keys.insert(k.as_str().to_string());
+    }
+  }
+  let mut cands: Vec<MethodDigest> = ctl.digests.borrow().clone();
+  for (_, (_, mj)) in methods.iter() {
+    if let Some(d) = digest_of_json(mj) {
+      if !cands.contains(&d) {
+        cands.push(d);
+      }
+    }
+  }
+  let mut keyids = BTreeMap::new();
+  for d in &cands {
+    if let Ok(k) = block_on(st.key_id_storage().inner.get_key_id(d)) {
+      keyids.insert(hex(&d.pack()), k.as_str().to_string());
+    }
+  }
+  Obs {
+    methods,
+    duplicate_ids,
+    refs,
+    rest,
+    services,
+    keys,
+    key_count: block_on(st.key_storage().inner.count()),
+    keyid_count: block_on(st.key_id_storage().inner.count()),
+    keyids,
+  }
+}
+
+impl Obs {
+  fn ref_ids(&self) -> BTreeSet<&String> {
+    self.refs.iter().map(|r| &r.1).collect()
+  }
+  /// (digest hex, key id) of a method that is backed by both stores
+  fn backing(&self, id: &str) -> Option<(String, String)> {
+    let (_, mj) = self.methods.get(id)?;
+    let d = hex(&digest_of_json(mj)?.pack());
+    let k = self.keyids.get(&d)?;
+    self.keys.contains(k).then(|| (d, k.clone()))
+  }
+}
+
+/// Differences between two observations that are NOT explained by `allowed` having been applied; every
+/// difference is a class name (the last component of a violation key).
+fn diff(before: &Obs, after: &Obs) -> Vec<&'static str> {
+  let mut out = Vec::new();
+  for (id, (scope, mj)) in &before.methods {
+    match after.methods.get(id) {
+      None => out.push("method-dropped"),
+      Some((s2, m2)) => {
+        if s2 != scope {
+          out.push("method-scope-changed")
+        }
+        if m2 != mj {
+          out.push("method-content-changed")
+        }
+      }
+    }
+  }
+  if after.methods.keys().any(|k| !before.methods.contains_key(k)) {
+    out.push("method-left-behind");
+  }
+  if before.refs.difference(&after.refs).next().is_some() {
+    out.push("references-dropped");
+  }
+  if after.refs.difference(&before.refs).next().is_some() {
+    out.push("references-added");
+  }
+  if before.rest != after.rest || after.duplicate_ids != before.duplicate_ids {
+    out.push("document-other-part-changed");
+  }
+  if before.keys.difference(&after.keys).next().is_some() {
+    out.push("key-deleted");
+  }
+  if after.keys.difference(&before.keys).next().is_some() || (after.keys == before.keys && after.key_count != before.key_count) {
+    out.push("orphan-key");
+  }
+  for (d, k) in &before.keyids {
+    match after.keyids.get(d) {
+      None => out.push("key-id-deleted"),
+      Some(k2) if k2 != k => out.push("key-id-remapped"),
+      _ => {}
+    }
+  }
+  if after.keyids.keys().any(|d| !before.keyids.contains_key(d)) || (after.keyids == before.keyids && after.keyid_count != before.keyid_count) {
+    out.push("orphan-key-id");
+  }
+  out.sort();
+  out.dedup();
+  out
+}
+
+// ------------------------------------------------------------------------------------------------ one execution
+
+fn err_name(e: &JwkStorageDocumentError) -> String {
+  format!("{e:?}").chars().take_while(|c| c.is_ascii_alphanumeric()).collect()
+}
+fn frag_string(f: Fr) -> Option<&'static str> {
+  const K: [&str; 10] = ["#k0", "#k1", "#k2", "#k3", "#k4", "#k5", "#k6", "#k7", "#k8", "#k9"];
+  match f {
+    Fr::Auto => None,
+    Fr::Named(n) => Some(K[n as usize % 10]),
+    Fr::Root => Some("#root"),
+    Fr::Svc => Some("#svc"),
+    Fr::Dangling => Some("#dangling"),
+    Fr::Invalid => Some("#bad fragment\u{7f}<>"),
+  }
+}
+fn fault_pattern(calls: &[(&'static str, bool)]) -> String {
+  let f: Vec<&str> = calls.iter().filter(|c| c.1).map(|c| c.0).collect();
+  if f.is_empty() {
+    "none".into()
+  } else {
+    f.join("+")
+  }
+}
+
+struct Exec<'a, 'c, 'p, D: TestDoc> {
+  ctx: &'a Ctx,
+  scn: &'a Scenario,
+  ctl: Rc<Ctl<'c, 'p>>,
+  st: Store<'c, 'p>,
+  doc: D,
+  auto: Option<String>,
+  /// local outcome histogram, merged once per execution
+  hist: BTreeMap<String, u64>,
+}
+
+enum Res {
+  Gen(Result<Result<String, JwkStorageDocumentError>, vx::Panicked>),
+  Purge(Result<Result<(), JwkStorageDocumentError>, vx::Panicked>),
+  Sign(Result<Result<Jws, JwkStorageDocumentError>, vx::Panicked>),
+  Attach,
+}
+
+impl<'a, 'c, 'p, D: TestDoc> Exec<'a, 'c, 'p, D> {
+  fn case(&self) -> Case {
+    Case { scn: self.scn.clone(), faults: self.ctl.ch.borrow().seq() }
+  }
+  fn violation(&self, key: &str, what: &str) {
+    self.ctx.violation(key, &format!("[{:?}] {what}", self.scn.doc), &self.case());
+  }
+  fn target_id(&self, t: Tg) -> String {
+    let did = D::did_str();
+    match t {
+      Tg::Named(n) => format!("{did}{}", frag_string(Fr::Named(n)).unwrap()),
+      Tg::Auto => format!("{did}#{}", self.auto.clone().unwrap_or_else(|| "no-auto-yet".into())),
+      Tg::Root => format!("{did}#root"),
+      Tg::Undec => format!("{did}#undec"),
+      Tg::Absent => format!("{did}#absent"),
+    }
+  }
+
+  /// Run the real API for one operation.
+  fn apply(&mut self, op: Op) -> Res {
+    let st = &self.st;
+    let doc = &mut self.doc;
+    match op {
+      Op::Gen { scope, frag, kt } => {
+        let (key_type, alg) = match kt {
+          Kt::Ed25519EdDsa => (JwkMemStore::ED25519_KEY_TYPE, JwsAlgorithm::EdDSA),
+          Kt::Ed25519Es256 => (JwkMemStore::ED25519_KEY_TYPE, JwsAlgorithm::ES256),
+          Kt::Bogus => (KeyType::new("bogus"), JwsAlgorithm::EdDSA),
+        };
+        let r = guard(|| block_on(doc.generate_method(st, key_type, alg, frag_string(frag), scope_of(scope).0)));
+        if let (Ok(Ok(f)), Fr::Auto) = (&r, frag) {
+          self.auto = Some(f.trim_start_matches('#').to_string());
+        }
+        Res::Gen(r)
+      }
+      Op::Purge { target } => {
+        let id = self.target_id(target);
+        let doc = &mut self.doc;
+        let url = DIDUrl::parse(&id).expect("target id parses");
+        Res::Purge(guard(|| block_on(doc.purge_method(st, &url))))
+      }
+      Op::Attach { target, rel } => {
+        let id = self.target_id(target);
+        let url = DIDUrl::parse(&id).expect("target id parses");
+        let _ = guard(|| self.doc.attach(&url, RELS[rel as usize % 5]));
+        Res::Attach
+      }
+      Op::Sign { target } => {
+        let id = self.target_id(target);
+        let frag = id.rsplit_once('#').map(|p| p.1.to_string()).unwrap_or_default();
+        let doc = &self.doc;
+        Res::Sign(guard(|| block_on(doc.create_jws(st, &frag, b"c09 payload", &JwsSignatureOptions::default()))))
+      }
+    }
+  }
+
+  /// create_jws with the faults off + verify_jws: `Err(reason)` if the method cannot be used for signing.
+  fn usable(&self, id: &str) -> Result<(), String> {
+    let frag = id.rsplit_once('#').map(|p| p.1.to_string()).unwrap_or_default();
+    debug_assert!(!self.ctl.armed.get());
+    match guard(|| block_on(self.doc.create_jws(&self.st, &frag, b"usable?", &JwsSignatureOptions::default()))) {
+      Ok(Ok(jws)) => match guard(|| self.doc.verify(&jws)) {
+        Ok(Ok(())) => Ok(()),
+        Ok(Err(e)) => Err(format!("signature does not verify: {e}")),
+        Err(p) => Err(format!("verify_jws panicked: {}", p.msg)),
+      },
+      Ok(Err(e)) => Err(format!("create_jws: {}", err_name(&e))),
+      Err(p) => Err(format!("create_jws panicked: {}", p.msg)),
+    }
+  }
+
+  /// One armed operation with the oracle. Returns false if the execution must stop (exempt outcome,
+  /// violation or panic: the state is no longer one the property speaks about).
+  fn step(&mut self, op: Op) -> bool {
+    let before = observe(&self.doc, &self.st, &self.ctl);
+    self.ctl.calls.borrow_mut().clear();
+    self.ctl.armed.set(true);
+    let res = self.apply(op);
+    self.ctl.armed.set(false);
+    let calls = self.ctl.calls.borrow().clone();
+    let injected = calls.iter().any(|c| c.1);
+    let pat = fault_pattern(&calls);
+    let after = observe(&self.doc, &self.st, &self.ctl);
+    let did = D::did_str();
+    let mut go_on = true;
+    let label: String;
+    match (op, res) {
+      (Op::Attach { .. }, _) | (_, Res::Attach) => {
+        label = format!("attach:{}", if before == after { "no-change" } else { "attached" });
+      }
+      // ------------------------------------------------------------------ generate_method
+      (Op::Gen { scope, frag, kt }, Res::Gen(r)) => {
+        let want_scope = scope_of(scope).1;
+        let req_id = frag_string(frag).map(|f| format!("{did}{f}"));
+        let id_free = req_id
+          .as_ref()
+          .map(|i| !before.methods.contains_key(i) && !before.services.contains(i) && !before.ref_ids().contains(i))
+          .unwrap_or(true);
+        let expect_ok = id_free && kt == Kt::Ed25519EdDsa && frag != Fr::Invalid;
+        // Not judged at all: the requested id is already carried by a relationship reference that points at no
+        // method (a dangling self-reference). Such a document is outside the quantifier of the property (what
+        // insert_method does with it is C04's business); executed and recorded only.
+        let open = req_id.as_ref().map(|i| !before.methods.contains_key(i) && before.ref_ids().contains(i)).unwrap_or(false);
+        if open {
+          let what = match &r {
+            Err(_) => "panic".to_string(),
+            Ok(Ok(_)) => format!("ok,method-in-document={}", req_id.as_ref().map(|i| after.methods.contains_key(i)).unwrap_or(false)),
+            Ok(Err(e)) => format!("err({}),state-{}", err_name(e), if diff(&before, &after).is_empty() { "unchanged".to_string() } else { diff(&before, &after).join("+") }),
+          };
+          *self.hist.entry(format!("gen:unjudged-dangling-self-reference:{what}|faults={pat}")).or_insert(0) += 1;
+          return false;
+        }
+        match r {
+          Err(p) => {
+            self.violation(&format!("generate_method|{}", p.key()), &format!("faults {pat}: {}", p.msg));
+            label = "gen:panic".into();
+            go_on = false;
+          }
+          Ok(Ok(fragment)) => {
+            let fragment = fragment.trim_start_matches('#').to_string();
+            let id = format!("{did}#{fragment}");
+            let mut bad: Vec<(&str, String)> = Vec::new();
+            if let (Some(r), true) = (&req_id, frag != Fr::Invalid) {
+              if *r != id {
+                bad.push(("returned-fragment-is-not-the-requested-one", format!("requested {r}, returned {fragment}")));
+              }
+            }
+            if before.methods.contains_key(&id) {
+              bad.push(("existing-method-replaced", id.clone()));
+            }
+            let mut expected = before.clone();
+            match after.methods.get(&id) {
+              None => bad.push(("method-missing", format!("{id} is not in the document"))),
+              Some((s, mj)) => {
+                if s != want_scope {
+                  bad.push(("method-in-wrong-scope", format!("{id} is in {s}, requested {want_scope}")));
+                }
+                let url = DIDUrl::parse(&id).ok();
+                if !url.map(|u| self.doc.resolves(&u, Some(scope_of(scope).0))).unwrap_or(false) {
+                  bad.push(("method-does-not-resolve", format!("resolve_method({id}, {want_scope}) is None")));
+                }
+                expected.methods.insert(id.clone(), (s.clone(), mj.clone()));
+                let newk: Vec<&String> = after.keys.difference(&before.keys).collect();
+                match (digest_of_json(mj), newk.as_slice()) {
+                  (Some(d), [k]) => {
+                    expected.keys.insert((*k).clone());
+                    expected.key_count += 1;
+                    expected.keyids.insert(hex(&d.pack()), (*k).clone());
+                    expected.keyid_count += 1;
+                  }
+                  (None, _) => bad.push(("method-has-no-digest", id.clone())),
+                  (_, ks) => bad.push(("key-store-not-extended-by-one-key", format!("{} new keys", ks.len()))),
+                }
+              }
+            }
+            if bad.is_empty() {
+              for c in diff(&expected, &after) {
+                bad.push((c, format!("state after Ok differs from (state before + new method + its key + its key id): {c}")));
+              }
+            }
+            if bad.is_empty() {
+              if let Err(e) = self.usable(&id) {
+                bad.push(("signing-fails", e));
+              }
+            }
+            for (c, w) in &bad {
+              self.violation(&format!("generate_method|ok|{c}"), &format!("faults {pat}: {w}"));
+            }
+            go_on = bad.is_empty();
+            label = format!("gen:ok{}{}", if injected { "-despite-fault" } else { "" }, if bad.is_empty() { "" } else { "+INCOMPLETE" });
+          }
+          Ok(Err(JwkStorageDocumentError::UndoOperationFailed { .. })) => {
+            label = format!("gen:undo-failed(exempt){}", if injected { "" } else { "-without-injected-fault" });
+            go_on = false;
+          }
+          Ok(Err(e)) => {
+            let name = err_name(&e);
+            let d = diff(&before, &after);
+            let open = false;
+            for c in &d {
+              self.violation(
+                &format!("generate_method|err-without-undo-report|{c}"),
+                &format!("faults {pat}: Err({name}) but the observable state changed: {c}"),
+              );
+            }
+            if d.is_empty() && !injected && expect_ok {
+              self.violation("generate_method|no-fault|unexpected-error", &format!("Err({name}) although no storage call failed"));
+            }
+            go_on = d.is_empty() && !open;
+            label = format!(
+              "gen:err({name})+{}",
+              if open { "unjudged:dangling-self-reference-dropped" } else if d.is_empty() { "unchanged" } else { "CHANGED" }
+            );
+          }
+        }
+      }
+      // ------------------------------------------------------------------ purge_method
+      (Op::Purge { target }, Res::Purge(r)) => {
+        let id = self.target_id(target);
+        let backing = before.backing(&id);
+        match r {
+          Err(p) => {
+            self.violation(&format!("purge_method|{}", p.key()), &format!("faults {pat}: {}", p.msg));
+            label = "purge:panic".into();
+            go_on = false;
+          }
+          Ok(Ok(())) => {
+            let mut bad: Vec<(&str, String)> = Vec::new();
+            let mut expected = before.clone();
+            if expected.methods.remove(&id).is_none() {
+              bad.push(("method-was-absent", format!("Ok for {id} which the document does not contain")));
+            }
+            expected.refs.retain(|r| r.1 != id);
+            match &backing {
+              Some((d, k)) => {
+                expected.keys.remove(k);
+                expected.key_count -= 1;
+                expected.keyids.remove(d);
+                expected.keyid_count -= 1;
+              }
+              None => bad.push(("method-was-not-backed", format!("Ok for {id} which has no key id / key in the stores"))),
+            }
+            if after.methods.contains_key(&id) || DIDUrl::parse(&id).map(|u| self.doc.resolves(&u, None)).unwrap_or(false) {
+              bad.push(("method-still-present", id.clone()));
+            }
+            if after.ref_ids().contains(&id) {
+              bad.push(("reference-left-behind", id.clone()));
+            }
+            if let Some((d, k)) = &backing {
+              if after.keys.contains(k) {
+                bad.push(("key-still-live", "the private key survived the purge".into()));
+              }
+              if after.keyids.contains_key(d) {
+                bad.push(("key-id-still-recorded", "the digest -> key id entry survived the purge".into()));
+              }
+            }
+            if bad.is_empty() {
+              for c in diff(&expected, &after) {
+                bad.push((c, format!("state after Ok differs from (state before - method - references - key - key id): {c}")));
+              }
+            }
+            for (c, w) in &bad {
+              self.violation(&format!("purge_method|ok|{c}"), &format!("faults {pat}: {w}"));
+            }
+            go_on = bad.is_empty();
+            label = format!("purge:ok{}{}", if injected { "-despite-fault" } else { "" }, if bad.is_empty() { "" } else { "+INCOMPLETE" });
+          }
+          Ok(Err(JwkStorageDocumentError::UndoOperationFailed { .. })) => {
+            label = format!("purge:undo-failed(exempt){}", if injected { "" } else { "-without-injected-fault" });
+            go_on = false;
+          }
+          Ok(Err(e)) => {
+            let name = err_name(&e);
+            let d = diff(&before, &after);
+            let nrefs = before.refs.iter().filter(|r| r.1 == id).count();
+            let shape = match before.methods.get(&id) {
+              None => "absent".to_string(),
+              Some((s, _)) if s == "verificationMethod" => format!("general method with {nrefs} reference(s)"),
+              Some((s, _)) => format!("method embedded in {s}"),
+            };
+            for c in &d {
+              self.violation(
+                &format!("purge_method|err-without-undo-report|{c}"),
+                &format!("purge of a {shape}, failing calls {pat}: Err({name}) but the observable state changed: {c}"),
+              );
+            }
+            if d.is_empty() && !injected && backing.is_some() {
+              self.violation("purge_method|no-fault|unexpected-error", &format!("Err({name}) although no storage call failed"));
+            }
+            go_on = d.is_empty();
+            label = format!("purge:err({name})+{}", if d.is_empty() { "unchanged" } else { "CHANGED" });
+          }
+        }
+      }
+      // ------------------------------------------------------------------ create_jws
+      (Op::Sign { target }, Res::Sign(r)) => {
+        let id = self.target_id(target);
+        let backed = before.backing(&id).is_some();
+        let changed = diff(&before, &after);
+        for c in &changed {
+          self.violation(&format!("create_jws|state-changed|{c}"), &format!("faults {pat}"));
+        }
+        go_on = changed.is_empty();
+        match r {
+          Err(p) => {
+            self.violation(&format!("create_jws|{}", p.key()), &format!("faults {pat}: {}", p.msg));
+            label = "sign:panic".into();
+            go_on = false;
+          }
+          Ok(Ok(jws)) => {
+            let v = guard(|| self.doc.verify(&jws));
+            if !matches!(v, Ok(Ok(()))) {
+              self.violation("create_jws|ok|signature-does-not-verify", &format!("faults {pat}: {v:?}"));
+              go_on = false;
+            }
+            label = format!("sign:ok{}", if injected { "-despite-fault" } else { "" });
+          }
+          Ok(Err(e)) => {
+            let name = err_name(&e);
+            if backed && !injected {
+              self.violation("create_jws|no-fault|unexpected-error", &format!("Err({name}) for a backed method although no storage call failed"));
+              go_on = false;
+            }
+            label = format!("sign:err({name})");
+          }
+        }
+      }
+      _ => unreachable!("result kind matches operation kind"),
+    }
+    *self.hist.entry(format!("{label}|faults={pat}")).or_insert(0) += 1;
+    go_on
+  }
+}
+
+/// The body explored by E1: one execution of a scenario; `ch` decides which call occurrences fail.
+fn run<D: TestDoc>(ctx: &Ctx, scn: &Scenario, ch: &mut Chooser) -> (usize, bool) {
+  let ctl = Rc::new(Ctl {
+    ch: RefCell::new(ch),
+    armed: Cell::new(false),
+    calls: RefCell::new(Vec::new()),
+    issued: RefCell::new(Vec::new()),
+    digests: RefCell::new(Vec::new()),
+  });
+  let st = Storage::new(
+    FaultyJwk { inner: JwkMemStore::new(), ctl: ctl.clone() },
+    FaultyKeyId { inner: KeyIdMemstore::new(), ctl: ctl.clone() },
+  );
+  let mut ex = Exec { ctx, scn, ctl, st, doc: D::build(scn.base), auto: None, hist: BTreeMap::new() };
+  for op in &scn.setup {
+    let ok = match ex.apply(*op) {
+      Res::Gen(Ok(Ok(_))) | Res::Purge(Ok(Ok(()))) | Res::Sign(Ok(Ok(_))) | Res::Attach => true,
+      _ => false,
+    };
+    ctx.require(ok, &format!("setup step {op:?} of scenario {scn:?} failed"));
+  }
+  let mut done = 0;
+  let mut complete = true;
+  let mut labels: Vec<String> = Vec::new();
+  for op in &scn.ops {
+    let go_on = ex.step(*op);
+    done += 1;
+    if !go_on {
+      complete = false;
+      break;
+    }
+  }
+  // final state of an execution that ended inside the property's domain: every backed method is usable,
+  // no key without key id, no key id without key.
+  if complete {
+    let obs = observe(&ex.doc, &ex.st, &ex.ctl);
+    let mut mapped = BTreeSet::new();
+    for (id, (_, mj)) in &obs.methods {
+      if let Some(d) = digest_of_json(mj) {
+        if let Some(k) = obs.keyids.get(&hex(&d.pack())) {
+          mapped.insert(k.clone());
+          if let Err(e) = ex.usable(id) {
+            ex.violation("final-state|method-with-key-id-cannot-sign", &format!("{id}: {e}"));
+          }
+        }
+      }
+    }
+    if obs.keys.iter().any(|k| !mapped.contains(k)) || obs.key_count != obs.keys.len() {
+      ex.violation("final-state|orphan-key", "a live key is not recorded under the digest of any method of the document");
+    }
+    if obs.keyids.len() != mapped.len() || obs.keyid_count != obs.keyids.len() || mapped.iter().any(|k| !obs.keys.contains(k)) {
+      ex.violation("final-state|orphan-key-id", "a key id entry belongs to no method of the document or names a dead key");
+    }
+  }
+  labels.extend(ex.hist.keys().cloned());
+  ctx.outcomes_merge(&ex.hist);
+  ctx.distinct(&(scn, &labels));
+  (done, complete)
+}
+
+fn run_kind(ctx: &Ctx, scn: &Scenario, ch: &mut Chooser) -> (usize, bool) {
+  match scn.doc {
+    DocKind::Core => run::<CoreDocument>(ctx, scn, ch),
+    DocKind::Iota => run::<IotaDocument>(ctx, scn, ch),
+  }
+}
+
+fn eval(ctx: &Ctx, case: &Case) {
+  ctx.eval1();
+  let mut ch = Chooser::replay(&case.faults);
+  run_kind(ctx, &case.scn, &mut ch);
+}
+
+// ------------------------------------------------------------------------------------------------ enumeration
+
+fn gen(scope: Scp, frag: Fr) -> Op {
+  Op::Gen { scope, frag, kt: Kt::Ed25519EdDsa }
+}
+
+/// (name, scenario) of part (A) for one document kind.
+fn single_op_scenarios(doc: DocKind) -> Vec<(String, Scenario)> {
+  let mut v = Vec::new();
+  // a storage-backed bystander (general method #k9 referenced from authentication) is part of every document
+  let by = vec![gen(Scp::Vm, Fr::Named(9)), Op::Attach { target: Tg::Named(9), rel: 0 }];
+  let mk = |base: u8, extra: Vec<Op>, op: Op| {
+    let mut setup = by.clone();
+    setup.extend(extra);
+    Scenario { doc, base, setup, ops: vec![op] }
+  };
+  for scope in [Scp::Vm, Scp::Auth, Scp::Assert] {
+    for (fname, frag) in [
+      ("none", Fr::Auto),
+      ("fresh", Fr::Named(0)),
+      ("used-by-backed-general-method", Fr::Named(9)),
+      ("used-by-unbacked-general-method", Fr::Root),
+      ("used-by-service", Fr::Svc),
+      ("invalid", Fr::Invalid),
+    ] {
+      v.push((format!("generate scope={scope:?} fragment={fname}"), mk(0, vec![], gen(scope, frag))));
+    }
+  }
+  for scope in [Scp::Vm, Scp::Auth] {
+    v.push((
+      format!("generate scope={scope:?} fragment=used-by-embedded-method"),
+      mk(0, vec![gen(Scp::Auth, Fr::Named(8))], gen(scope, Fr::Named(8))),
+    ));
+    v.push((format!("generate scope={scope:?} fragment=carried-by-dangling-reference"), mk(2, vec![], gen(scope, Fr::Dangling))));
+  }
+  for kt in [Kt::Ed25519Es256, Kt::Bogus] {
+    v.push((format!("generate scope=Vm fragment=fresh keytype={kt:?}"), mk(0, vec![], Op::Gen { scope: Scp::Vm, frag: Fr::Named(0), kt })));
+  }
+  // purge
+  for refs in [0u8, 1, 2, 5] {
+    let mut extra = vec![gen(Scp::Vm, Fr::Named(0))];
+    for r in 0..refs {
+      // relationship 0 (authentication) first, then assertionMethod, ...
+      extra.push(Op::Attach { target: Tg::Named(0), rel: r });
+    }
+    v.push((format!("purge general method with {refs} reference(s)"), mk(0, extra, Op::Purge { target: Tg::Named(0) })));
+  }
+  v.push((
+    "purge general method (kid fragment) with 1 reference".into(),
+    mk(0, vec![gen(Scp::Vm, Fr::Auto), Op::Attach { target: Tg::Auto, rel: 1 }], Op::Purge { target: Tg::Auto }),
+  ));
+  v.push(("purge method embedded in authentication".into(), mk(0, vec![gen(Scp::Auth, Fr::Named(0))], Op::Purge { target: Tg::Named(0) })));
+  v.push(("purge method embedded in assertionMethod".into(), mk(0, vec![gen(Scp::Assert, Fr::Named(0))], Op::Purge { target: Tg::Named(0) })));
+  v.push(("purge absent method".into(), mk(0, vec![], Op::Purge { target: Tg::Absent })));
+  v.push(("purge unbacked general method with 1 reference".into(), mk(0, vec![], Op::Purge { target: Tg::Root })));
+  v.push(("purge general method with undecodable key data and 1 reference".into(), mk(1, vec![], Op::Purge { target: Tg::Undec })));
+  v
+}
+
+const ALPHABET: [Op; 8] = [
+  Op::Gen { scope: Scp::Vm, frag: Fr::Named(0), kt: Kt::Ed25519EdDsa },
+  Op::Gen { scope: Scp::Auth, frag: Fr::Named(1), kt: Kt::Ed25519EdDsa },
+  Op::Gen { scope: Scp::Vm, frag: Fr::Auto, kt: Kt::Ed25519EdDsa },
+  Op::Attach { target: Tg::Named(0), rel: 1 },
+  Op::Purge { target: Tg::Named(0) },
+  Op::Purge { target: Tg::Named(1) },
+  Op::Purge { target: Tg::Auto },
+  Op::Sign { target: Tg::Named(0) },
+];
+
+/// (C): repeated life cycles of ONE method (generate as general method, reference it, sign, purge), deeper.
+const CYCLE_ALPHABET: [Op; 4] = [
+  Op::Gen { scope: Scp::Vm, frag: Fr::Named(0), kt: Kt::Ed25519EdDsa },
+  Op::Attach { target: Tg::Named(0), rel: 0 },
+  Op::Purge { target: Tg::Named(0) },
+  Op::Sign { target: Tg::Named(0) },
+];
+
+#[derive(Default)]
+struct Agg {
+  scenarios: u64,
+  executions: u64,
+  states: u64,
+  transitions: u64,
+  max_depth: u64,
+  by_dev: Vec<u64>,
+  whole: bool,
+}
+impl Agg {
+  fn add(&mut self, st: &choice::ExploreStats) {
+    self.scenarios += 1;
+    self.executions += st.executions;
+    self.states += st.states;
+    self.transitions += st.transitions;
+    self.max_depth = self.max_depth.max(st.max_depth);
+    if self.by_dev.len() < st.by_deviation.len() {
+      self.by_dev.resize(st.by_deviation.len(), 0);
+    }
+    for (i, n) in st.by_deviation.iter().enumerate() {
+      self.by_dev[i] += n;
+    }
+    self.whole &= st.exhaustive;
+  }
+  fn account(&self, ctx: &Ctx, part: &str, extra: Value) {
+    ctx.add_states(self.states);
+    ctx.add_transitions(self.transitions);
+    ctx.add_traces(self.executions);
+    ctx.add_evals(self.executions);
+    if !self.whole {
+      ctx.cap_hit(&format!("{part}: a fault subset was cut"));
+    }
+    ctx.part(
+      part,
+      json!({"engine": "E1 choice DFS, deviation bound None (every subset of failing call occurrences)", "scenarios": self.scenarios,
+        "executions": self.executions, "choice_tree_nodes": self.states, "edges": self.transitions, "max_call_occurrences": self.max_depth,
+        "executions_by_number_of_failing_calls(last bucket = 8+)": self.by_dev, "whole_tree": self.whole, "detail": extra}),
+    );
+  }
+}
+
+fn generate(ctx: &Ctx) {
+  ctx.rule("every scenario is executed once per subset of failing storage-call occurrences (E1 explorer, bound None; choice points = calls actually made, discovered dynamically, incl. undo calls). (A) 34 single-operation scenarios x {CoreDocument, IotaDocument}; (B) all operation sequences up to the tier's length over an 8-letter alphabet x both document kinds, faults anywhere in the history; (C) the same over a 4-letter single-method life-cycle alphabet, deeper. distinct_nontrivial = distinct (scenario, set of per-operation outcome+fault-pattern labels)");
+  ctx.assume("JwkMemStore / KeyIdMemstore are the backing stores (their own contract is C15); a fault = the wrapper returns the trait error (kind Unavailable) WITHOUT touching the store; torn operations (effect + error) are not modelled");
+  ctx.assume("K.insert and K.exists are choice points of the wrapper as well, but generate_method / purge_method / create_jws never call them");
+  ctx.assume("observation: document JSON (method arrays compared as sets), JwkStorage::exists of every key id ever issued + count(), KeyIdStorage::get_key_id of every digest ever seen or derivable from a document method + count()");
+
+  // ---------------------------------------------------------------- (A)
+  for doc in [DocKind::Core, DocKind::Iota] {
+    let mut agg = Agg { whole: true, ..Default::default() };
+    let mut table = serde_json::Map::new();
+    for (name, scn) in single_op_scenarios(doc) {
+      let first = Mutex::new(None::<Case>);
+      let st = choice::explore(None, |ch| {
+        run_kind(ctx, &scn, ch);
+        if ch.deviations() == 1 {
+          let mut f = first.lock().unwrap();
+          let seq = ch.seq();
+          if f.as_ref().map(|c| seq < c.faults).unwrap_or(true) {
+            *f = Some(Case { scn: scn.clone(), faults: seq });
+          }
+        }
+      });
+      if let Some(c) = first.lock().unwrap().take() {
+        ctx.sample(&format!("single-op {doc:?}"), &c);
+      }
+      agg.add(&st);
+      table.insert(name, json!({"executions": st.executions, "max_call_occurrences": st.max_depth, "by_failing_calls": st.by_deviation[..5]}));
+    }
+    agg.account(ctx, &format!("(A) single operation, {doc:?}Document"), Value::Object(table));
+  }
+
+  // ---------------------------------------------------------------- (B), (C)
+  let max_len = ctx.by_tier(3usize, 4usize);
+  histories(ctx, "(B) histories", &ALPHABET, max_len);
+  let cyc_len = ctx.by_tier(4usize, 6usize);
+  histories(ctx, "(C) generate/attach/purge/sign cycles on one method", &CYCLE_ALPHABET, cyc_len);
+  ctx.bound("fault_subsets", "all (deviation bound None)");
+  ctx.bound("history_length", max_len);
+  ctx.bound("history_alphabet", ALPHABET.iter().map(|o| format!("{o:?}")).collect::<Vec<_>>());
+  ctx.bound("cycle_length", cyc_len);
+  ctx.bound("cycle_alphabet", CYCLE_ALPHABET.iter().map(|o| format!("{o:?}")).collect::<Vec<_>>());
+  ctx.bound("references_on_purged_method", [0, 1, 2, 5]);
+}
+
+/// Every sequence of length 1..=max_len over `alphabet`, on both document kinds, every fault subset each.
+fn histories(ctx: &Ctx, part: &str, alphabet: &[Op], max_len: usize) {
+  let mut seqs: Vec<Vec<Op>> = vec![];
+  let mut layer: Vec<Vec<Op>> = vec![vec![]];
+  for _ in 0..max_len {
+    let mut next = Vec::new();
+    for s in &layer {
+      for op in alphabet {
+        let mut t = s.clone();
+        t.push(*op);
+        next.push(t);
+      }
+    }
+    seqs.extend(next.iter().cloned());
+    layer = next;
+  }
+  for doc in [DocKind::Core, DocKind::Iota] {
+    let agg = Mutex::new(Agg { whole: true, ..Default::default() });
+    let per_len = Mutex::new(BTreeMap::<usize, (u64, u64)>::new());
+    let sample_seq = &seqs[seqs.len() / 2];
+    seqs.par_iter().for_each(|ops| {
+      let scn = Scenario { doc, base: 0, setup: vec![], ops: ops.clone() };
+      let first = Mutex::new(None::<Case>);
+      let st = choice::explore(None, |ch| {
+        run_kind(ctx, &scn, ch);
+        if ops == sample_seq && ch.deviations() == 1 {
+          let mut f = first.lock().unwrap();
+          let seq = ch.seq();
+          if f.as_ref().map(|c| seq < c.faults).unwrap_or(true) {
+            *f = Some(Case { scn: scn.clone(), faults: seq });
+          }
+        }
+      });
+      if let Some(c) = first.lock().unwrap().take() {
+        ctx.sample(&format!("{part} {doc:?}"), &c);
+      }
+      agg.lock().unwrap().add(&st);
+      let mut p = per_len.lock().unwrap();
+      let e = p.entry(ops.len()).or_insert((0, 0));
+      e.0 += 1;
+      e.1 += st.executions;
+    });
+    let detail: BTreeMap<String, Value> =
+      per_len.lock().unwrap().iter().map(|(l, (s, e))| (format!("length {l}"), json!({"sequences": s, "executions": e}))).collect();
+    agg.lock().unwrap().account(ctx, &format!("{part}, {doc:?}Document"), json!(detail));
+  }
+}
+
+fn main() {
+  vx::run_main::<Case, _, _>("C09", Level::FaultEnumeration, generate, eval)
+}
